@@ -253,6 +253,16 @@ def _sym_worker(pid, hname, tier, conn, quick_ms, roots=None):
                     result['fidelity'].append(fw)
             for o in obls:
                 base = _constraints(p, o['snap'])
+                if o['kind'] == 'exception':
+                    # "this path is reachable": the inputs only have to satisfy the domain and the branch conditions; the
+                    # definitions of auxiliary symbols are dropped (a model is replayed on the real code anyway)
+                    d_, c_, f_, a_ = o['snap']
+                    light = p.domain[:d_] + p.pc[:c_]
+                    st, env, dt = solve.solve_inproc(light, tmo, want_vars(p))
+                    if st == 'sat':
+                        result['records'].append(dict(path=pi, name=o['name'], kind=o['kind'], status='sat', by='z3-5.1-inproc',
+                                                      secs=round(dt, 3), env=_envjson(fix_angles(env, angle_info(p)))))
+                        continue
                 cons = base + [o['bad']]
                 if o['kind'] == 'check':
                     tc = time.time()
@@ -272,6 +282,19 @@ def _sym_worker(pid, hname, tier, conn, quick_ms, roots=None):
                 rec = dict(path=pi, name=o['name'], kind=o['kind'], status=st, by=by, secs=round(dt, 3))
                 if st == 'sat':
                     rec['env'] = _envjson(fix_angles(env, angle_info(p)))
+                    # alternative models away from the special values solvers like (0, +-1, +-1/2): under-constrained
+                    # symbols (opaque angles, contracts) make the first model a poor replay candidate
+                    alts = []
+                    extra = []
+                    for n, v in p.inputs.items():
+                        if v.sort() == z3.RealSort():
+                            extra += [v != 0, v != 1, v != -1, 2 * v != 1, 2 * v != -1]
+                            if n in env:
+                                extra.append(v != z3.RealVal(str(env[n])))
+                    st2, env2, _ = solve.solve_inproc(cons + extra, tmo, want_vars(p))
+                    if st2 == 'sat':
+                        alts.append(_envjson(fix_angles(env2, angle_info(p))))
+                    rec['alt_envs'] = alts
                 elif st == 'unknown':
                     rec['smt2'] = solve.to_smt2(cons)
                     rec['vars'] = list(want_vars(p))
